@@ -14,8 +14,8 @@
        the first chunk must reset the dictionary: lzma2_empty_preset_refuted).
    The bound on coded decisions per chunk needed by the range-coder theorem is DERIVED: a chunk
    holds at most 2^21 bytes, every symbol produces at least one byte and at most 64 decisions.
-   PARTIAL (preset): proved for presets not longer than the dictionary size and shorter than the
-   reader's window (= the dictionary size clamped to >= 4096 and rounded up to a multiple of 16). *)
+   PARTIAL (preset): not proved for a preset LONGER than a dictionary size that the reader rounds
+   (l2_window_size dict = dict clamped to >= 4096 and rounded up to a multiple of 16). *)
 From LzVerif Require Import Base.Bytes Codec.Store Codec.Range Codec.LzWindow Codec.LzmaDec Codec.LzmaEnc
   Codec.LzmaWriters Codec.Lzma2Dec Codec.Lzma2SpecProofs Codec.Lzma2FrameSyncProofs Codec.Lzma2ReadProofs
   Codec.Lzma2ExamplesProofs.
@@ -41,7 +41,7 @@ Print Assumptions C01_lzma2_roundtrip.
 
 Theorem C01_lzma2_roundtrip_preset : forall lc lp pb dict p data evs stream tail sizes,
   0 <= lc -> 0 <= lp -> lc + lp <= 4 -> 0 <= pb <= 4 -> dict <= 2147483648 ->
-  p <> [] -> zlen p <= dict -> zlen p < l2_window_size dict ->
+  p <> [] -> (zlen p <= dict \/ l2_window_size dict = dict) ->
   bytes_ok p = true -> bytes_ok data = true ->
   l2_no_end evs ->
   lzma2_write lc lp pb dict (Some p) data evs = Ok stream ->
